@@ -68,6 +68,10 @@ use lyon_tessellation::{
 use vh::fillgen::gen_poly;
 use vh::{guarded, CaseOut, Ctx, Oracle, Out, Rng};
 
+// family `stroke_reuse:32` (the complete stroker model on a reused object)
+#[path = "../c08_stroke_reuse.rs"]
+mod stroke_reuse;
+
 // ---------------------------------------------------------------------------------------------
 // Paths with curves and attributes
 
@@ -2227,6 +2231,11 @@ fn main() {
     let n_sattr = ctx.n(600, 20_000);
     for _ in 0..n_sattr {
         stroke_attrs_case(&mut ctx);
+    }
+    // the complete stroker model on a reused object (ids after all the older families)
+    let n_sreuse = ctx.n(400, 15_000);
+    for _ in 0..n_sreuse {
+        stroke_reuse::stroke_reuse_case(&mut ctx);
     }
     ctx.finish();
 }
